@@ -165,7 +165,28 @@ func init() {
 		n := free.calls
 		h.tag(fmt.Sprintf("wfault-calls:%s", kind))
 		swallowed, closeNil := 0, 0
-		for k := 0; k < n; k++ {
+		// every call position when the run makes at most 4000 underlying writes; beyond that (MiB-size armored
+		// messages: one write per word) the first and last 1500 positions and 1500 evenly spaced ones
+		var ks []int
+		if n <= 4000 {
+			for k := 0; k < n; k++ {
+				ks = append(ks, k)
+			}
+		} else {
+			seen := map[int]bool{}
+			add := func(k int) {
+				if k >= 0 && k < n && !seen[k] {
+					seen[k] = true
+					ks = append(ks, k)
+				}
+			}
+			for k := 0; k < 1500; k++ {
+				add(k)
+				add(n - 1 - k)
+				add(k * (n / 1500))
+			}
+		}
+		for _, k := range ks {
 			for _, sticky := range []bool{false, true} {
 				w := &faultWriter{failAt: k, sticky: sticky}
 				fe, err := runEncoder(kind, w, pieces, rng)
@@ -186,7 +207,7 @@ func init() {
 				}
 			}
 		}
-		h.res.Distribution["wfault-injections"] += 2 * n
+		h.res.Distribution["wfault-injections"] += 2 * len(ks)
 		return
 	}}
 
@@ -238,7 +259,7 @@ func init() {
 
 func genFaults(h *H) {
 	thorough := h.tier == "thorough"
-	lens := []int{0, 1, 40, 700}
+	lens := []int{0, 1, 40, 700, 5000}
 	if thorough {
 		lens = []int{0, 1, 15, 40, 700, 5000, mib + 10}
 	}
